@@ -29,6 +29,7 @@ import (
 // ---- tier parameters
 
 type params struct {
+	thorough     bool
 	maxSeedFile  int // largest test/data file used as a seed
 	seedsPerPkg  int // seeds per package (shortest first)
 	shortLen     int // seeds up to this length get every 1-byte deviation
@@ -44,7 +45,7 @@ type params struct {
 
 func tierParams(thorough bool) params {
 	if thorough {
-		return params{maxSeedFile: 120000, seedsPerPkg: 24, shortLen: 2400, devSeeds: 8, devPrefix: 2400, bigObjDevMax: 800,
+		return params{thorough: true, maxSeedFile: 120000, seedsPerPkg: 24, shortLen: 2400, devSeeds: 8, devPrefix: 2400, bigObjDevMax: 800,
 			garbageSeeds: 4, hashPrefix: 2000, maxOut: 4 << 20, maxPix: 2 << 20, maxWork: 64 << 20}
 	}
 	return params{maxSeedFile: 4100, seedsPerPkg: 6, shortLen: 330, devSeeds: 2, devPrefix: 200, bigObjDevMax: 64,
@@ -159,6 +160,8 @@ type input struct {
 	Val     byte   // deviation value
 	Shape   int    // index into plan.shapes
 	Full    bool   // full product
+	Light   bool   // light list: baseline + the prefill dimensions (and the other build)
+	Family  bool   // member of an enumerated family
 	Encoder bool   // encoder-produced (JPEG exception)
 	data    []byte // materialised lazily
 }
@@ -172,6 +175,8 @@ type pkgPlan struct {
 	shapes  []wd.Shape
 	inputs  []input
 	cfgFull []config
+	cfgLite []config
+	nFamily map[string]int
 	cfgPair []config
 }
 
@@ -250,13 +255,15 @@ type worker struct {
 var variants = []string{cserve.Plain, cserve.NoArch}
 
 type runCtx struct {
-	r        *ev.Run
-	p        params
-	distinct sync.Map // outcome key -> struct{}
-	nDist    atomic.Int64
-	reported sync.Map // pkg|dim -> struct{}
-	jpegSkip atomic.Int64
-	crossCmp atomic.Int64
+	r                          *ev.Run
+	p                          params
+	distinct                   sync.Map // outcome key -> struct{}
+	nDist                      atomic.Int64
+	reported                   sync.Map // pkg|dim -> struct{}
+	jpegSkip                   atomic.Int64
+	oracleChecked, oracleNotes atomic.Int64
+	notes                      sync.Map
+	crossCmp                   atomic.Int64
 }
 
 func (w *worker) exec(variant string, rec *[]cserve.Cmd) wd.Exec {
@@ -393,24 +400,40 @@ func inputClass(in *input) string {
 	if in.Pos >= 0 {
 		return "1-byte-deviation"
 	}
+	if in.Family {
+		return "enumerated-family"
+	}
 	return "seed"
 }
 
+// job is one input on its way through the configurations.
+type job struct {
+	in     *input
+	data   []byte
+	shape  wd.Shape
+	cfgs   []config
+	tr     *wd.Trace // baseline run on the plain build
+	script []cserve.Cmd
+	start  map[string][]int   // per build, per config: index of its first command in the shared batch (-1: not in the batch)
+	obs    map[string][][]int // per build, per config: indexes (relative to start) of the script results
+}
+
+func (p *pkgPlan) inputData(in *input) []byte {
+	data := p.seeds[in.Seed].Data
+	if in.Pos >= 0 {
+		data = append([]byte(nil), data...)
+		data[in.Pos] = in.Val
+	}
+	return data
+}
+
 // process runs one input under all configurations.
-func (w *worker) process(ctx *runCtx, p *pkgPlan, in *input) {
-	data := in.data
-	if data == nil {
-		data = p.seeds[in.Seed].Data
-		if in.Pos >= 0 {
-			data = append([]byte(nil), data...)
-			data[in.Pos] = in.Val
-		}
-	}
-	shape := p.shapes[in.Shape]
-	cfgs := p.cfgPair
-	if in.Full {
-		cfgs = p.cfgFull
-	}
+func (w *worker) process(ctx *runCtx, p *pkgPlan, in *input) { w.processJobs(ctx, p, []*input{in}) }
+
+// processJobs runs a group of inputs. Members of the enumerated families (valid files of a known
+// call shape) use a fixed script (wd.StaticScript) and share their round trips; everything else
+// gets its script from a reactive baseline run, one input at a time.
+func (w *worker) processJobs(ctx *runCtx, p *pkgPlan, ins []*input) {
 	for _, v := range variants {
 		if !w.gok[v] {
 			if err := w.buildGarbage(ctx, p, v); err != nil {
@@ -420,21 +443,117 @@ func (w *worker) process(ctx *runCtx, p *pkgPlan, in *input) {
 			}
 		}
 	}
-	// 1. baseline, reactively, on the CPU-specific build: this fixes the script.
-	base := &cfgs[0]
-	if _, err := w.srv[cserve.Plain].Do(setupCmds(p.name, base)...); err != nil {
-		w.crash(ctx, p, in, data, cserve.Plain, base, nil, err)
-		return
+	var jobs []*job
+	for _, in := range ins {
+		j := &job{in: in, data: p.inputData(in), shape: p.shapes[in.Shape], cfgs: p.cfgPair, start: map[string][]int{}, obs: map[string][][]int{}}
+		if in.Full {
+			j.cfgs = p.cfgFull
+		} else if in.Light {
+			j.cfgs = p.cfgLite
+		}
+		jobs = append(jobs, j)
 	}
-	tr, err := wd.Drive(w.exec(cserve.Plain, nil), slotWork, p.kind, data, shape, base.Fill)
-	if err != nil {
-		w.crash(ctx, p, in, data, cserve.Plain, base, tr.Cmds, err)
-		return
+	retryAlone := func() {
+		for _, in := range ins {
+			w.processJobs(ctx, p, []*input{in})
+		}
 	}
-	script := tr.Cmds
+	// 1. baseline on the CPU-specific build: this fixes the script.
+	if len(jobs) == 1 && !(jobs[0].in.Family && jobs[0].in.Light) {
+		j := jobs[0]
+		base := &j.cfgs[0]
+		if _, err := w.srv[cserve.Plain].Do(setupCmds(p.name, base)...); err != nil {
+			w.crash(ctx, p, j.in, j.data, cserve.Plain, base, nil, err)
+			return
+		}
+		tr, err := wd.Drive(w.exec(cserve.Plain, nil), slotWork, p.kind, j.data, j.shape, base.Fill)
+		if err != nil {
+			w.crash(ctx, p, j.in, j.data, cserve.Plain, base, tr.Cmds, err)
+			return
+		}
+		j.tr, j.script = tr, tr.Cmds
+	} else {
+		var cmds []cserve.Cmd
+		var at []int
+		for _, j := range jobs {
+			j.script = wd.StaticScript(slotWork, p.kind, j.data, j.shape, j.cfgs[0].Fill)
+			at = append(at, len(cmds))
+			cmds = append(cmds, setupCmds(p.name, &j.cfgs[0])...)
+			cmds = append(cmds, j.script...)
+		}
+		res := make([]cserve.Result, len(cmds))
+		if err := w.srv[cserve.Plain].DoInto(cmds, res); err != nil {
+			if len(jobs) > 1 {
+				w.restart(cserve.Plain)
+				retryAlone()
+				return
+			}
+			w.crash(ctx, p, jobs[0].in, jobs[0].data, cserve.Plain, &jobs[0].cfgs[0], jobs[0].script, err)
+			return
+		}
+		for k, j := range jobs {
+			n0 := at[k] + len(setupCmds(p.name, &j.cfgs[0]))
+			j.tr = &wd.Trace{Cmds: j.script, Res: res[n0 : n0+len(j.script)], End: "static-script"}
+		}
+	}
+	// 2. every configuration in both builds, pipelined (one batch per build for the whole group).
+	type batch struct {
+		cmds []cserve.Cmd
+		res  []cserve.Result
+		err  error
+	}
+	bs := map[string]*batch{}
+	var wg sync.WaitGroup
+	for _, v := range variants {
+		b := &batch{}
+		for _, j := range jobs {
+			for ci := range j.cfgs {
+				if v == cserve.Plain && ci == 0 {
+					j.start[v] = append(j.start[v], -1)
+					j.obs[v] = append(j.obs[v], nil)
+					continue
+				}
+				cmds, obs := cfgCmds(p.name, &j.cfgs[ci], j.script)
+				j.start[v] = append(j.start[v], len(b.cmds))
+				j.obs[v] = append(j.obs[v], obs)
+				b.cmds = append(b.cmds, cmds...)
+			}
+		}
+		b.res = make([]cserve.Result, len(b.cmds))
+		bs[v] = b
+		wg.Add(1)
+		go func(v string, b *batch) {
+			defer wg.Done()
+			b.err = w.srv[v].DoInto(b.cmds, b.res)
+		}(v, b)
+	}
+	wg.Wait()
+	if len(jobs) > 1 {
+		bad := false
+		for _, v := range variants {
+			if bs[v].err != nil {
+				w.restart(v)
+				bad = true
+			}
+		}
+		if bad { // find the culprit by running the members one by one
+			retryAlone()
+			return
+		}
+	}
+	for _, j := range jobs {
+		w.judge(ctx, p, j, func(v string) (cmds []cserve.Cmd, res []cserve.Result, err error) {
+			return bs[v].cmds, bs[v].res, bs[v].err
+		})
+	}
+}
+
+// judge evaluates one job: statistics, the PNG oracle note, and all comparisons.
+func (w *worker) judge(ctx *runCtx, p *pkgPlan, j *job, batchOf func(v string) ([]cserve.Cmd, []cserve.Result, error)) {
+	in, data, shape, cfgs, tr, script := j.in, j.data, j.shape, j.cfgs, j.tr, j.script
 	baseSteps := map[string][]wd.Step{cserve.Plain: wd.ObserveAll(tr.Cmds, tr.Res)}
 	fillSteps := map[string][]wd.Step{} // per build: observation of the baseline initialisation with prefill EE
-	st, consumed, written := wd.Final(tr.Cmds, tr.Res)
+	st, _, _ := wd.Final(tr.Cmds, tr.Res)
 	w.hStatus[p.name+": "+st]++
 	w.hEnd[tr.End]++
 	for i := range tr.Res {
@@ -444,6 +563,41 @@ func (w *worker) process(ctx *runCtx, p *pkgPlan, in *input) {
 		}
 	}
 	w.inputs++
+	// Free C07-style oracle for the generated PNGs: the decoded pixels must be the encoder's intended
+	// ones. A mismatch is information (signature prefix oracle-note|), not a C09 violation.
+	if im := p.seeds[in.Seed].Png; im != nil && in.Pos < 0 && shape.PixFmt == 0 {
+		if want, ok := wd.PngExpectBGRA(im); ok {
+			ctx.oracleChecked.Add(1)
+			var got []byte
+			for i := len(tr.Res) - 1; i >= 0; i-- {
+				if tr.Cmds[i].Op == cserve.OpGet && tr.Cmds[i].What == cserve.GetPixels {
+					got = tr.Res[i].Data
+					break
+				}
+			}
+			note := ""
+			switch {
+			case st != "@base: end of data" && st != "ok":
+				note = "valid file not decoded: final status " + st
+			case len(got) != len(want):
+				note = fmt.Sprintf("pixel buffer has %d bytes, intended image %d", len(got), len(want))
+			default:
+				for k := range want {
+					if got[k] != want[k] {
+						note = fmt.Sprintf("pixel %d (x=%d y=%d) channel %d (BGRA): decoded %#02x, intended %#02x", k/4, (k/4)%im.W, (k/4)/im.W, k%4, got[k], want[k])
+						break
+					}
+				}
+			}
+			if note != "" {
+				sig := fmt.Sprintf("oracle-note|png|decoded pixels differ from the intended ones|colortype=%d depth=%d interlaced=%v", im.ColorType, im.Depth, im.Interlaced)
+				ctx.oracleNotes.Add(1)
+				if _, dup := ctx.notes.LoadOrStore(sig, note+" ["+p.seeds[in.Seed].Name+"]"); !dup {
+					fmt.Printf("ORACLE-NOTE (information, not a C09 violation) property=C09\n  signature: %s\n  what: %s, build plain: %s\n", sig, p.seeds[in.Seed].Name, note)
+				}
+			}
+		}
+	}
 	if (in.Pos < 0 && in.Seed == 1 && in.Shape == 0) || (in.Pos == 5 && in.Val == 0) {
 		var ss []string
 		for _, s := range baseSteps[cserve.Plain] {
@@ -470,50 +624,18 @@ func (w *worker) process(ctx *runCtx, p *pkgPlan, in *input) {
 		if _, dup := ctx.distinct.LoadOrStore(key, struct{}{}); !dup {
 			ctx.nDist.Add(1)
 		}
-		_ = consumed
-		_ = written
 	}
 
-	// 2. every configuration in both builds, pipelined.
-	type batch struct {
-		cmds  []cserve.Cmd
-		start []int   // per config: index of its first command
-		obs   [][]int // per config: indexes (relative to start) of the script results
-		res   []cserve.Result
-		err   error
-	}
-	bs := map[string]*batch{}
-	var wg sync.WaitGroup
 	for _, v := range variants {
-		b := &batch{}
-		for ci := range cfgs {
-			b.start = append(b.start, len(b.cmds))
-			if v == cserve.Plain && ci == 0 {
-				b.obs = append(b.obs, nil)
-				continue
-			}
-			cmds, obs := cfgCmds(p.name, &cfgs[ci], script)
-			b.cmds = append(b.cmds, cmds...)
-			b.obs = append(b.obs, obs)
-		}
-		b.res = make([]cserve.Result, len(b.cmds))
-		bs[v] = b
-		wg.Add(1)
-		go func(v string, b *batch) {
-			defer wg.Done()
-			b.err = w.srv[v].DoInto(b.cmds, b.res)
-		}(v, b)
-	}
-	wg.Wait()
-	for _, v := range variants {
-		b := bs[v]
+		bcmds, bres, berr := batchOf(v)
+		start, obsv := j.start[v], j.obs[v]
 		ncfg := len(cfgs)
-		if b.err != nil {
-			ce, _ := b.err.(*cserve.CrashError)
+		if berr != nil {
+			ce, _ := berr.(*cserve.CrashError)
 			ci := -1
 			if ce != nil && ce.CmdIndex >= 0 {
-				for k := range b.start {
-					if b.start[k] <= ce.CmdIndex {
+				for k := range start {
+					if start[k] >= 0 && start[k] <= ce.CmdIndex {
 						ci = k
 					}
 				}
@@ -525,26 +647,26 @@ func (w *worker) process(ctx *runCtx, p *pkgPlan, in *input) {
 			} else {
 				ncfg = 0
 			}
-			w.crash(ctx, p, in, data, v, c, script, b.err)
+			w.crash(ctx, p, in, data, v, c, script, berr)
 		}
 		for ci := 0; ci < ncfg; ci++ {
-			if b.obs[ci] == nil {
+			if obsv[ci] == nil {
 				continue
 			}
 			c := &cfgs[ci]
 			// setup results must be fine
 			setupBad := ""
-			for k := b.start[ci]; k < b.start[ci]+b.obs[ci][0]; k++ {
-				r := &b.res[k]
+			for k := start[ci]; k < start[ci]+obsv[ci][0]; k++ {
+				r := &bres[k]
 				if r.Err != "" {
 					setupBad = "refused: " + r.Err
-				} else if (b.cmds[k].Op == cserve.OpNew || b.cmds[k].Op == cserve.OpInit) && !b.cmds[k].NoInit && !r.OK {
+				} else if (bcmds[k].Op == cserve.OpNew || bcmds[k].Op == cserve.OpInit) && !bcmds[k].NoInit && !r.OK {
 					setupBad = "initialize returned " + r.Status
 				}
 			}
-			steps := make([]wd.Step, len(b.obs[ci]))
-			for k, o := range b.obs[ci] {
-				steps[k] = wd.Observe(&b.cmds[b.start[ci]+o], &b.res[b.start[ci]+o])
+			steps := make([]wd.Step, len(obsv[ci]))
+			for k, o := range obsv[ci] {
+				steps[k] = wd.Observe(&bcmds[start[ci]+o], &bres[start[ci]+o])
 			}
 			if ci == 0 {
 				baseSteps[v] = steps
@@ -593,11 +715,18 @@ func (w *worker) process(ctx *runCtx, p *pkgPlan, in *input) {
 
 func (w *worker) report(ctx *runCtx, p *pkgPlan, in *input, data []byte, shape wd.Shape, script []cserve.Cmd,
 	va string, ca *config, vb string, cb *config, dim, d string) {
-	key := p.name + "|" + dim
+	class := inputClass(in)
+	if in.Family && shape.PixFmt != 0 {
+		class += " " + strings.TrimPrefix(shape.Name, "one-shot/") // e.g. "enumerated-family dst=RGBA_NONPREMUL"
+	}
+	key := p.name + "|" + dim + "|" + class
+	if in.Pos >= 0 {
+		key = p.name + "|" + dim
+	}
 	if _, dup := ctx.reported.LoadOrStore(key, struct{}{}); dup {
 		return
 	}
-	sig := fmt.Sprintf("differs|%s|%s|%s|%s", p.name, dim, diffField(d), inputClass(in))
+	sig := fmt.Sprintf("differs|%s|%s|%s|%s", p.name, dim, diffField(d), class)
 	wit := witness{Pkg: p.name, Input: inputName(p, in), InputHex: hexs(data), Shape: shape.Name, Diff: d,
 		A: w.side(va, p, ca, script), B: w.side(vb, p, cb, script), Modules: []string{p.name}}
 	what := fmt.Sprintf("%s: input %q (%d bytes): configuration [%s, build %s] and configuration [%s, build %s] disagree: %s",
@@ -643,7 +772,70 @@ func shapesFor(kind int, pr params) []wd.Shape {
 		two.CutNum, two.CutDen = 1, 3
 		two.Pad = 1
 	}
-	return []wd.Shape{base, two}
+	out := []wd.Shape{base, two}
+	switch kind {
+	case cserve.KindImageDecoder:
+		// shapes 2.. : one per destination pixel format (the swizzle families)
+		fmts := wd.DstFormats
+		if !pr.thorough {
+			fmts = fmts[:6]
+		}
+		for _, f := range fmts {
+			sh := base
+			sh.Name = "one-shot/dst=" + f.Name
+			sh.PixFmt = f.Fmt
+			out = append(out, sh)
+		}
+	case cserve.KindHasherU32, cserve.KindHasherU64, cserve.KindHasherBitvec256:
+		// shapes 2..16: the slice starts 1..15 bytes after a 16-byte boundary
+		for pad := 1; pad <= 15; pad++ {
+			sh := base
+			sh.Name = fmt.Sprintf("one-update/misaligned-by-%d", pad)
+			sh.Pad = uint64(pad)
+			out = append(out, sh)
+		}
+	}
+	return out
+}
+
+// addFamilies appends the enumerated families: every member gets the light configuration list
+// (both builds, pixel/destination and work prefills), every 9th the pairwise list too.
+func (p *pkgPlan) addFamilies(fam []wd.Seed, hasher bool) {
+	p.nFamily = map[string]int{}
+	if hasher {
+		// alignment family: every length 0..160 at every misalignment 1..15 (0 is the ordinary seed input)
+		for si := range p.seeds {
+			if len(p.seeds[si].Data) > 160 {
+				continue
+			}
+			for k := 2; k < len(p.shapes); k++ {
+				p.inputs = append(p.inputs, input{Seed: si, Pos: -1, Shape: k, Light: true, Family: true, Encoder: true})
+				p.nFamily["hasher-alignment"]++
+			}
+		}
+		return
+	}
+	for i, s := range fam {
+		si := len(p.seeds)
+		p.seeds = append(p.seeds, s)
+		shapes := []int{0}
+		if p.kind == cserve.KindImageDecoder && s.Family != "pngmk" && s.Family != "png-width-filter" {
+			shapes = shapes[:0]
+			for k := 2; k < len(p.shapes); k++ {
+				shapes = append(shapes, k)
+			}
+		} else if p.kind == cserve.KindImageDecoder {
+			shapes = []int{2} // BGRA_NONPREMUL (the oracle's format)
+		}
+		for _, k := range shapes {
+			p.inputs = append(p.inputs, input{Seed: si, Pos: -1, Shape: k, Light: true, Family: true, Encoder: s.EncoderProduced})
+			p.nFamily[s.Family]++
+		}
+		if i%9 == 0 {
+			p.inputs = append(p.inputs, input{Seed: si, Pos: -1, Shape: shapes[0], Family: true, Encoder: s.EncoderProduced})
+			p.nFamily[s.Family+" (pairwise list)"]++
+		}
+	}
 }
 
 func mkPlan(name string, kind int, sizeof uint64, seeds []wd.Seed, pr params, errInputs map[int][]byte) *pkgPlan {
@@ -669,6 +861,11 @@ func mkPlan(name string, kind int, sizeof uint64, seeds []wd.Seed, pr params, er
 	}
 	p.cfgFull = makeConfigs(p.garbage, true, true)
 	p.cfgPair = makeConfigs(p.garbage, false, true)
+	for _, c := range p.cfgPair {
+		if !c.CloneMid && (c.Dim == "baseline" || c.Dim == "dst-fill" || c.Dim == "work-fill") {
+			p.cfgLite = append(p.cfgLite, c)
+		}
+	}
 	return p
 }
 
@@ -736,6 +933,7 @@ func main() {
 		pkgs = append(pkgs, strings.SplitN(n, ".", 2)[0])
 	}
 	allSeeds := wd.Seeds(ev.Repo(), pkgs, pr.maxSeedFile)
+	families := wd.Families(r.Tier)
 	var plans []*pkgPlan
 	seedStatus := map[string]string{}
 	tPlan := time.Now()
@@ -824,9 +1022,20 @@ func main() {
 		}
 		p := mkPlan(n, pk.Kind, pk.Sizeof, seeds, pr, errIn)
 		p.addSeedInputs(pr, long)
+		for len(long) < len(seeds) {
+			long = append(long, false)
+		}
+		nOwn := len(p.seeds)
+		p.addFamilies(families[dir], hasher)
+		for len(long) < len(p.seeds) {
+			long = append(long, true) // family members get no deviations
+		}
+		_ = nOwn
 		if !hasher {
 			addDeviationInputs(p, pr, long)
 		}
+		// seeds (and families) first: the work items are cut at the first deviation input
+		sort.SliceStable(p.inputs, func(i, j int) bool { return p.inputs[i].Pos < 0 && p.inputs[j].Pos >= 0 })
 		plans = append(plans, p)
 	}
 	planS := time.Since(tPlan).Seconds()
@@ -904,11 +1113,22 @@ func main() {
 			}
 		}
 		tItem := time.Now()
-		for k := it.lo; k < it.hi; k++ {
+		for k := it.lo; k < it.hi; {
 			if it.phase == 1 && r.Expired() {
 				break
 			}
+			// consecutive members of the enumerated families travel together (up to 24 per round trip)
+			var group []*input
+			for k < it.hi && len(group) < 24 && it.p.inputs[k].Family && it.p.inputs[k].Light {
+				group = append(group, &it.p.inputs[k])
+				k++
+			}
+			if len(group) > 0 {
+				w.processJobs(ctx, it.p, group)
+				continue
+			}
 			w.process(ctx, it.p, &it.p.inputs[k])
+			k++
 		}
 		w.secs[it.p.name] += time.Since(tItem).Seconds()
 		done.Add(int64(it.hi - it.lo))
@@ -1002,13 +1222,16 @@ func main() {
 		}
 		var sn []string
 		for _, s := range p.seeds {
+			if s.Family != "" {
+				continue
+			}
 			sn = append(sn, fmt.Sprintf("%s (%d B, %s): %s", s.Name, len(s.Data), s.Origin, seedStatus[p.name+": "+s.Name]))
 		}
 		var gn []string
 		for _, g := range p.garbage {
 			gn = append(gn, g.Kind+": "+g.Name)
 		}
-		pkgSummary[p.name] = map[string]any{"sizeof": p.sizeof, "seeds": sn, "deviation_inputs": nd, "garbage_sources": gn,
+		pkgSummary[p.name] = map[string]any{"sizeof": p.sizeof, "seeds": sn, "deviation_inputs": nd, "garbage_sources": gn, "enumerated_family_inputs": p.nFamily,
 			"configs_full_product_per_build": len(p.cfgFull), "configs_pairwise_per_build": len(p.cfgPair)}
 	}
 	r.Sample(map[string]any{"example_configuration_labels": func() []string {
@@ -1021,6 +1244,8 @@ func main() {
 		return l
 	}()})
 	r.Add("inputs", inputs)
+	r.Add("png_files_checked_against_intended_pixels (oracle-note)", ctx.oracleChecked.Load())
+	r.Add("oracle_notes", ctx.oracleNotes.Load())
 	r.Add("jpeg_cross_build_comparisons_skipped_not_encoder_produced", ctx.jpegSkip.Load())
 	r.Add("cross_build_comparisons", ctx.crossCmp.Load())
 
@@ -1032,7 +1257,9 @@ func main() {
 			"distinct_nontrivial = number of distinct (package, complete baseline observation) outcomes over all inputs, i.e. behaviourally different inputs",
 		Exhaustive: true,
 		Explanation: "Inputs: per std package the shortest seeds (repository test/data files incl. artificial-*, Go reference encoders, a few hand-built files; hashers: every prefix length of a payload) and, " +
-			"for the short seeds, every 1-byte deviation with replacement values {00, FF, ^b, b+1}. Configurations per input and build: see example_configuration_labels; full product of " +
+			"for the short seeds, every 1-byte deviation with replacement values {00, FF, ^b, b+1}; plus enumerated families that drive every CPU-specific loop and swizzler through all its tails " +
+			"(pngmk: colour type x depth x width x height x per-row filter layout incl. first-row Sub/Average/Paeth and Adam7; PNG / netpbm / bmp / targa / wbmp / nie / qoi / gif of every width 1..40 decoded into 10 destination pixel formats; " +
+			"JPEG of every width 1..72 colour 4:2:0 and gray; deflate of every payload length 1..300; hashers at every length 0..160 x misalignment 0..15), each under both builds and the pixel/destination/work prefills, every 9th under the pairwise list. Configurations per input and build: see example_configuration_labels; full product of " +
 			"{initialize options x prior object memory} x {dst/pixel/work prefill 00, EE} on seeds and deviations of short seeds. The script of calls is fixed by the baseline run (one closed source, 4096-byte destination windows).",
 		Extra: map[string]any{
 			"build_seconds":                             buildS,
@@ -1044,7 +1271,12 @@ func main() {
 			"cpu_arch_predicate_uses_outside_choose (module:predicate -> count)": predUses,
 			"cpu_specific_functions_compiled_into_build":                         map[string]int{cserve.Plain: countSimd(syms[cserve.Plain]), cserve.NoArch: countSimd(syms[cserve.NoArch])},
 			"function_pointers_observed_inside_objects_after_decoding_seeds":     installed,
-			"packages":                        pkgSummary,
+			"packages": pkgSummary,
+			"oracle_notes_by_signature (png pixels vs pngmk intended pixels; information only)": func() map[string]string {
+				m := map[string]string{}
+				ctx.notes.Range(func(k, v any) bool { m[k.(string)] = v.(string); return true })
+				return m
+			}(),
 			"object_bytes_left_uninitialized": leaveBytes,
 		},
 	}, []string{
